@@ -100,7 +100,8 @@ def proj_by_op(table, default=("status",)):
         kind = op.split(" ")[0]
         keys = table.get(kind, default)
         if keys == ("all",):
-            return line
+            # which of several invalid transactions is reported is up to the parallel validation: never compare variants
+            return "err" if kind in ("batch", "block") and line.startswith("err ") else line
         if keys == ("status",):
             return line.split(" ")[0]
         if keys == ("none",):
@@ -228,10 +229,15 @@ def oracle_confirm(ops, impl, model):
             continue
         if got and not allvalid:
             out.append({"line": i, "op": o[:600], "impl": a, "detail": "confirmed with an invalid signature"})
+        if total >= 2 ** 128 - 1:
+            # the tally is not representable in a u128: nothing may confirm (a wrapped total would let a sliver confirm)
+            if got:
+                out.append({"line": i, "op": o[:600], "impl": a, "detail": "confirmed although the epoch's total stake (%d) does not fit a u128" % total})
+            continue
         if allvalid and 3 * present > 2 * total and not got:
             out.append({"line": i, "op": o[:600], "impl": a, "detail": "valid >2/3 majority (%d of %d) not confirmed" % (present, total)})
-        if 3 * present < 2 * total and got:
-            out.append({"line": i, "op": o[:600], "impl": a, "detail": "<2/3 (%d of %d) confirmed" % (present, total)})
+        if 3 * present <= 2 * total and got:
+            out.append({"line": i, "op": o[:600], "impl": a, "detail": "not more than 2/3 (%d of %d) confirmed" % (present, total)})
     return out
 
 
